@@ -16,6 +16,7 @@ import operator
 
 from harness import common, gen, sigs, sexp_types, containers as C
 
+from pyasn1.type import tag as ptag, constraint
 from pyasn1 import error
 from pyasn1.type import univ, char, useful, base, tag
 from pyasn1.codec.ber import encoder as ber_encoder
@@ -382,7 +383,12 @@ def reader_calls(t, obj):
              ('der', lambda: der_encoder.encode(obj)), ('cer', lambda: cer_encoder.encode(obj)),
              ('ber', lambda: ber_encoder.encode(obj)), ('ber-indef', lambda: ber_encoder.encode(obj, defMode=False)),
              ('clone', lambda: obj.clone(cloneValueFlag=True)), ('eq-self', lambda: obj == obj),
-             ('isInconsistent', lambda: obj.isInconsistent)]
+             ('isInconsistent', lambda: obj.isInconsistent),
+             # deriving other objects from this one (result thrown away) is a read-only use of it as well
+             ('clone-retagged', lambda: obj.clone(tagSet=ptag.TagSet((), ptag.Tag(ptag.tagClassContext, ptag.tagFormatConstructed, 29)))),
+             ('clone-reconstrained', lambda: obj.clone(subtypeSpec=constraint.ConstraintsIntersection(constraint.ValueSizeConstraint(0, 99)))),
+             ('subtype-explicit', lambda: obj.subtype(explicitTag=ptag.Tag(ptag.tagClassPrivate, ptag.tagFormatConstructed, 28))),
+             ('subtype-implicit', lambda: obj.subtype(implicitTag=ptag.Tag(ptag.tagClassApplication, ptag.tagFormatConstructed, 27)))]
     if k in ('seq', 'set'):
         calls += [('values', lambda: list(obj.values())), ('items', lambda: list(obj.items())),
                   ('keys', lambda: list(obj.keys()))]
